@@ -44,7 +44,7 @@ CURATED = {
         "Pinhole2D.apply": ("C03", "C04"), "Slit2D.__init__": ("C03",), "Slit2D.apply": ("C03",),
     },
     "sesans": {"SesansTransform.__init__": ("C19",), "SesansTransform.apply": ("C19",), "SesansTransform._set_hankel": ("C19",)},
-    "kernel": {"Kernel.Iq": ("C01", "C07", "C08", "C09", "C11",), "Kernel.Fq": ("C01", "C07", "C08", "C09", "C11", "C14",)},
+    "kernel": {"Kernel.Iq": ("C01", "C05", "C06", "C07", "C08", "C09", "C11", "C16",), "Kernel.Fq": ("C01", "C05", "C06", "C07", "C08", "C09", "C11", "C14", "C16",)},
     "product": {
         "make_extra_pars": ("C07",), "make_product_info": ("C07",), "_intermediates": ("C07",), "ProductModel.__init__": ("C07",),
         "ProductModel.make_kernel": ("C07",), "ProductKernel.__init__": ("C07", "C08"), "ProductKernel.Iq": ("C07", "C08", "C11",),
@@ -55,30 +55,30 @@ CURATED = {
         "_MixtureParts._part_details": ("C08",), "_MixtureParts._part_values": ("C08",),
     },
     "direct_model": {
-        "call_kernel": ("C01", "C10"), "call_Fq": ("C14", "C11"), "get_mesh": ("C01", "C02", "C05", "C07", "C08", "C10", "C11",), "_pop_par_weights": ("C01", "C02", "C10", "C11",),
-        "_make_sesans_transform": ("C19",), "DataMixin._interpret_data": ("C03", "C10"), "DataMixin._calc_theory": ("C03", "C10", "C11", "C19",),
+        "call_kernel": ("C01", "C07", "C08", "C10",), "call_Fq": ("C07", "C11", "C14",), "get_mesh": ("C01", "C02", "C05", "C07", "C08", "C10", "C11",), "_pop_par_weights": ("C01", "C02", "C05", "C10", "C11",),
+        "_make_sesans_transform": ("C19",), "DataMixin._interpret_data": ("C03", "C10"), "DataMixin._calc_theory": ("C03", "C07", "C10", "C11", "C19",),
         "DirectModel.__init__": ("C10",), "DirectModel.__call__": ("C10",), "_direct_calculate": ("C10",), "Iq": ("C10",), "Iqxy": ("C10",),
         "Gxi": ("C10", "C19"),
     },
     "details": {
-        "CallDetails.__init__": ("C01",), "make_details": ("C01", "C05", "C08",), "make_kernel_args": ("C01", "C05", "C06", "C10", "C11",),
-        "correct_theta_weights": ("C01", "C05"), "convert_magnetism": ("C06",), "dispersion_mesh": ("C01", "C10"),
+        "CallDetails.__init__": ("C01",), "make_details": ("C01", "C05", "C08",), "make_kernel_args": ("C01", "C05", "C06", "C07", "C08", "C10", "C11",),
+        "correct_theta_weights": ("C01", "C05",), "convert_magnetism": ("C06", "C08",), "dispersion_mesh": ("C01", "C10"),
     },
     "kerneldll": {
         # make_dll and compile_model are judged by the structural rules of C15/C17/C18 only: temporary-file naming, compiler
         # flags and directory handling may change without touching any property
-        "dll_name": ("C15", "C17"), "dll_path": ("C17",), "load_dll": ("C15", "C17", "C18"),
-        "DllModel.__init__": ("C15", "C18"), "DllModel._load_dll": ("C15", "C18"), "DllModel.make_kernel": ("C11", "C15"),
+        "dll_name": ("C15", "C17", "C18",), "dll_path": ("C17", "C18",), "load_dll": ("C15", "C17", "C18"),
+        "DllModel.__init__": ("C15", "C18"), "DllModel._load_dll": ("C15", "C18"), "DllModel.make_kernel": ("C01", "C11", "C15",),
         "DllKernel.__init__": ("C01", "C11"), "DllKernel._call_kernel": ("C01", "C11"),
     },
     "kernelpy": {
-        "PyModel.make_kernel": ("C09",), "PyInput.__init__": ("C09",), "PyKernel.__init__": ("C09", "C11"), "PyKernel._call_kernel": ("C01", "C09", "C11", "C14",),
+        "PyModel.make_kernel": ("C09",), "PyInput.__init__": ("C01", "C09",), "PyKernel.__init__": ("C01", "C09", "C11",), "PyKernel._call_kernel": ("C01", "C06", "C09", "C11", "C14",),
         "_loops": ("C01", "C09", "C11", "C14",), "_create_default_functions": ("C09",), "_create_vector_Iq": ("C09",), "_create_vector_Iqxy": ("C09",),
     },
     "sasview_model": {
         "SasviewModel.setParam": ("C10",), "SasviewModel.getParam": ("C10",), "SasviewModel.clone": ("C11",), "SasviewModel.run": ("C10",),
         "SasviewModel.runXY": ("C10",), "SasviewModel.evalDistribution": ("C10",), "SasviewModel.calculate_Iq": ("C10", "C11",),
-        "SasviewModel._calculate_Iq": ("C10", "C11"), "SasviewModel.set_dispersion": ("C10",), "SasviewModel._get_weights": ("C02", "C10",),
+        "SasviewModel._calculate_Iq": ("C10", "C11"), "SasviewModel.set_dispersion": ("C10",), "SasviewModel._get_weights": ("C02", "C05", "C10",),
     },
     "bumps_model": {
         "create_parameters": ("C10",), "Model.__init__": ("C10",), "Experiment.__init__": ("C10",), "Experiment.update": ("C10",),
@@ -92,14 +92,19 @@ CURATED = {
         "make_source": ("C09", "C16", "C17"), "load_template": ("C17",), "model_sources": ("C17",), "_add_source": ("C17",), "kernel_name": ("C17",),
     },
     "modelinfo": {
-        "make_parameter_table": ("C09",), "parse_parameter": ("C09",), "ParameterTable.__init__": ("C01", "C05", "C09", "C10"), "ParameterTable.check_angles": ("C09",),
-        "ParameterTable.check_duplicates": ("C09",), "ParameterTable._set_vector_lengths": ("C09",), "ParameterTable._get_call_parameters": ("C01", "C06", "C09",),
+        "make_parameter_table": ("C09",), "parse_parameter": ("C09",), "ParameterTable.__init__": ("C01", "C05", "C06", "C09", "C10",), "ParameterTable.check_angles": ("C05", "C09",),
+        "ParameterTable.check_duplicates": ("C09",), "ParameterTable._set_vector_lengths": ("C01", "C09",), "ParameterTable._get_call_parameters": ("C01", "C06", "C09",),
         "ParameterTable._get_defaults": ("C10",), "make_model_info": ("C09",), "derive_table": ("C16",), "_insert_after": ("C16",), "_simple_insert": ("C16",),
     },
     "convert": {
         "_rescale": ("C20",), "_is_sld": ("C20",), "_rescale_sld": ("C20",), "_get_translation_table": ("C20",), "_dot_pd_to_underscore_pd": ("C20",),
         "_pd_to_underscores": ("C20",), "_convert_pars": ("C20",), "_conversion_target": ("C20",), "_hand_convert": ("C20",), "_rename_magnetic": ("C20",),
         "_rename_magnetic_pars": ("C20",), "_rename_magnetic_angles": ("C20",), "_hand_convert_3_1_2_to_4_1": ("C20",), "convert_model": ("C20",),
+    },
+    "data": {
+        "Data1D.__init__": ("C03", "C10"), "Data2D.__init__": ("C03", "C10"), "SesansData.__init__": ("C10", "C19"),
+        "empty_data1D": ("C10",), "empty_data2D": ("C10",), "empty_sesans": ("C10", "C19"), "set_beam_stop": ("C10",), "set_half": ("C10",),
+        "set_top": ("C10",),
     },
     "custom/__init__": {"load_custom_kernel_module": ("C17",), "load_module_from_path": ("C17",), "need_reload": ("C17",)},
 }
